@@ -1,4 +1,4 @@
-"""pyvc.symexec -- symbolic execution of real Python function ASTs under sidecar contracts.
+"""pvc.symexec -- symbolic execution of real Python function ASTs under sidecar contracts.
 
 Forking is done by re-execution: every nondeterministic decision (branch,
 exception, loop case) is taken through Engine.choice(); the function is
@@ -178,6 +178,8 @@ class EngineBase:
             return T(BOOL, "true" if t.items else "false")
         if isinstance(t, Closure):
             return T(BOOL, "true")
+        if isinstance(t, EmptyV):
+            return T(BOOL, "false")
         s = t.sort
         if s == BOOL:
             return t
@@ -220,6 +222,8 @@ class EngineBase:
             return self.opaque("tup")
         if isinstance(t, Closure):
             return self.opaque("closure")
+        if isinstance(t, EmptyV):
+            return self.opaque("empty_" + t.kind)
         if t.sort == OBJ:
             return t
         if t.sort == NONE:
@@ -228,6 +232,12 @@ class EngineBase:
 
     def coerce(self, t, sort, what=""):
         """bring t to `sort` (exactly, via Opt wrapping, or by havoc with a note)"""
+        if isinstance(t, EmptyV):
+            if isinstance(sort, tuple) and sort[0] in ("Map", "Set", "Seq", "Array"):
+                return self.empty_of(sort)
+            if isinstance(sort, tuple) and sort[0] == "Opt":
+                return some(self.ctx, self.coerce(t, sort[1], what))
+            return self.to_obj(t) if sort == OBJ else self.opaque("coerced", sort)
         if isinstance(t, (TupV, Closure)):
             if sort == OBJ:
                 return self.to_obj(t)
@@ -258,9 +268,13 @@ class EngineBase:
         return self.opaque("coerced", sort)
 
     def unify(self, a, b):
-        if isinstance(a, (TupV, Closure)):
+        if isinstance(a, EmptyV) and isinstance(b, T) and isinstance(b.sort, tuple):
+            a = self.coerce(a, b.sort)
+        if isinstance(b, EmptyV) and isinstance(a, T) and isinstance(a.sort, tuple):
+            b = self.coerce(b, a.sort)
+        if isinstance(a, (TupV, Closure, EmptyV)):
             a = self.to_obj(a)
-        if isinstance(b, (TupV, Closure)):
+        if isinstance(b, (TupV, Closure, EmptyV)):
             b = self.to_obj(b)
         if a.sort == b.sort:
             return a, b
